@@ -1,16 +1,25 @@
-"""C20 — built-in AES == FIPS-197 (see run())."""
+"""C20 — built-in AES (_pypdf_aes_fallback.py) == FIPS-197 in ECB/CBC, round trips, stream wrapper, rejections.
+
+G: the nine tables of the live module are dumped into Gen/C20Tables.v on every run; C20/Inst.v re-decides
+   `tables_ok T` (every entry equals the spec function) with the kernel.
+Proofs: C20/Props.v (parametric in T under tables_ok), C20/Vectors.v (published vectors validate the spec).
+D: the model (vm_compute) against the implementation on exhaustive byte-level cases and random
+   (history, key, iv, message) cases through the real module functions and the patched pypdf CryptAES.
+Oracle: an independent pure-Python FIPS-197 reference + published vectors + round trips, on the implementation.
+"""
 from __future__ import annotations
 
-from common import coq_bytes
+import importlib
+
+from common import coq_bytes, coq_eval_shards
 
 AES_MOD = "sharepoint2text.parsing.extractors.pdf._pypdf_aes_fallback"
+TABLE_NAMES = ["_SBOX", "_INV_SBOX", "_MUL2", "_MUL3", "_MUL9", "_MUL11", "_MUL13", "_MUL14", "_RCON"]
+FIELDS = ["SBOX", "INV_SBOX", "MUL2", "MUL3", "MUL9", "MUL11", "MUL13", "MUL14", "RCON"]
 
 
 def gen_tables(ctx):
-    import importlib
     m = importlib.import_module(AES_MOD)
-    names = ["_SBOX", "_INV_SBOX", "_MUL2", "_MUL3", "_MUL9", "_MUL11", "_MUL13", "_MUL14", "_RCON"]
-    fields = ["SBOX", "INV_SBOX", "MUL2", "MUL3", "MUL9", "MUL11", "MUL13", "MUL14", "RCON"]
 
     def lit(v):
         v = list(v)
@@ -20,7 +29,506 @@ def gen_tables(ctx):
     txt = "(* GENERATED on every check run from the live module _pypdf_aes_fallback — do not edit. *)\n"
     txt += "From Coq Require Import NArith List.\nFrom S2T Require Import C20.Model.\nImport ListNotations.\n\n"
     txt += "Definition T : tables := {|\n"
-    txt += ";\n".join(f"  {f} := {lit(getattr(m, n))}" for f, n in zip(fields, names)) + "\n|}.\n"
+    txt += ";\n".join(f"  {f} := {lit(getattr(m, n))}" for f, n in zip(FIELDS, TABLE_NAMES)) + "\n|}.\n"
     txt += f"Definition ROUND_KEY_CACHE_MAX : nat := {int(m._ROUND_KEY_CACHE_MAX)}.\n"
     ctx.gen_write("Gen/C20Tables.v", txt)
     return m
+
+
+# ----------------------------------------------------------------------------- independent reference (FIPS-197)
+class Ref:
+    """Textbook AES on a 4x4 matrix state, no tables shared with the module under test."""
+
+    @staticmethod
+    def gmul(a, b):
+        p = 0
+        for _ in range(8):
+            if b & 1:
+                p ^= a
+            hi = a & 0x80
+            a = (a << 1) & 0xFF
+            if hi:
+                a ^= 0x1B
+            b >>= 1
+        return p
+
+    def __init__(self):
+        g = self.gmul
+        inv = [0] * 256
+        for a in range(1, 256):
+            for b in range(1, 256):
+                if g(a, b) == 1:
+                    inv[a] = b
+                    break
+        rotl = lambda x, k: ((x << k) | (x >> (8 - k))) & 0xFF
+        self.sbox = [inv[a] ^ rotl(inv[a], 1) ^ rotl(inv[a], 2) ^ rotl(inv[a], 3) ^ rotl(inv[a], 4) ^ 0x63
+                     for a in range(256)]
+        self.inv_sbox = [0] * 256
+        for a, s in enumerate(self.sbox):
+            self.inv_sbox[s] = a
+
+    def expand(self, key):
+        nk = len(key) // 4
+        nr = nk + 6
+        w = [list(key[4 * i:4 * i + 4]) for i in range(nk)]
+        rc = 1
+        for i in range(nk, 4 * (nr + 1)):
+            t = list(w[i - 1])
+            if i % nk == 0:
+                t = [self.sbox[t[1]] ^ rc, self.sbox[t[2]], self.sbox[t[3]], self.sbox[t[0]]]
+                rc = self.gmul(rc, 2)
+            elif nk > 6 and i % nk == 4:
+                t = [self.sbox[x] for x in t]
+            w.append([x ^ y for x, y in zip(w[i - nk], t)])
+        return [sum(w[4 * r:4 * r + 4], []) for r in range(nr + 1)], nr
+
+    def enc_block(self, key, blk):
+        rk, nr = self.expand(key)
+        g = self.gmul
+        s = [[blk[r + 4 * c] ^ rk[0][r + 4 * c] for c in range(4)] for r in range(4)]
+        for rnd in range(1, nr + 1):
+            s = [[self.sbox[s[r][c]] for c in range(4)] for r in range(4)]
+            s = [[s[r][(c + r) % 4] for c in range(4)] for r in range(4)]
+            if rnd != nr:
+                s = [[g(2, s[r][c]) ^ g(3, s[(r + 1) % 4][c]) ^ s[(r + 2) % 4][c] ^ s[(r + 3) % 4][c]
+                      for c in range(4)] for r in range(4)]
+            s = [[s[r][c] ^ rk[rnd][r + 4 * c] for c in range(4)] for r in range(4)]
+        return bytes(s[i % 4][i // 4] for i in range(16))
+
+    def dec_block(self, key, blk):
+        rk, nr = self.expand(key)
+        g = self.gmul
+        s = [[blk[r + 4 * c] ^ rk[nr][r + 4 * c] for c in range(4)] for r in range(4)]
+        for rnd in range(nr - 1, -1, -1):
+            s = [[s[r][(c - r) % 4] for c in range(4)] for r in range(4)]
+            s = [[self.inv_sbox[s[r][c]] for c in range(4)] for r in range(4)]
+            s = [[s[r][c] ^ rk[rnd][r + 4 * c] for c in range(4)] for r in range(4)]
+            if rnd != 0:
+                s = [[g(14, s[r][c]) ^ g(11, s[(r + 1) % 4][c]) ^ g(13, s[(r + 2) % 4][c]) ^ g(9, s[(r + 3) % 4][c])
+                      for c in range(4)] for r in range(4)]
+        return bytes(s[i % 4][i // 4] for i in range(16))
+
+    def ecb(self, key, data, dec=False):
+        f = self.dec_block if dec else self.enc_block
+        return b"".join(f(key, data[i:i + 16]) for i in range(0, len(data), 16))
+
+    def cbc_enc(self, key, iv, data):
+        out, prev = [], iv
+        for i in range(0, len(data), 16):
+            prev = self.enc_block(key, bytes(a ^ b for a, b in zip(data[i:i + 16], prev)))
+            out.append(prev)
+        return b"".join(out)
+
+    def cbc_dec(self, key, iv, data):
+        out, prev = [], iv
+        for i in range(0, len(data), 16):
+            blk = data[i:i + 16]
+            out.append(bytes(a ^ b for a, b in zip(self.dec_block(key, blk), prev)))
+            prev = blk
+        return b"".join(out)
+
+
+H = bytes.fromhex
+KAT_PT = H("6bc1bee22e409f96e93d7e117393172aae2d8a571e03ac9c9eb76fac45af8e51"
+           "30c81c46a35ce411e5fbc1191a0a52eff69f2445df4f9b17ad2b417be66c3710")
+KAT_IV = H("000102030405060708090a0b0c0d0e0f")
+KAT = {  # SP 800-38A F.1 / F.2 and FIPS-197 C.1-C.3
+    16: (H("2b7e151628aed2a6abf7158809cf4f3c"),
+         H("3ad77bb40d7a3660a89ecaf32466ef97f5d3d58503b9699de785895a96fdbaaf43b1cd7f598ece23881b00e3ed030688"
+           "7b0c785e27e8ad3f8223207104725dd4"),
+         H("7649abac8119b246cee98e9b12e9197d5086cb9b507219ee95db113a917678b273bed6b8e3c1743b7116e69e22229516"
+           "3ff1caa1681fac09120eca307586e1a7"),
+         H("69c4e0d86a7b0430d8cdb78070b4c55a")),
+    24: (H("8e73b0f7da0e6452c810f32b809079e562f8ead2522c6b7b"),
+         H("bd334f1d6e45f25ff712a214571fa5cc974104846d0ad3ad7734ecb3ecee4eefef7afd2270e2e60adce0ba2face6444e"
+           "9a4b41ba738d6c72fb16691603c18e0e"),
+         H("4f021db243bc633d7178183a9fa071e8b4d9ada9ad7dedf4e5e738763f69145a571b242012fb7ae07fa9baac3df102e0"
+           "08b0e27988598881d920a9e64f5615cd"),
+         H("dda97ca4864cdfe06eaf70a0ec0d7191")),
+    32: (H("603deb1015ca71be2b73aef0857d77811f352c073b6108d72d9810a30914dff4"),
+         H("f3eed1bdb5d2a03c064b5a7e3db181f8591ccb10d410ed26dc5ba74a31362870b6ed21b99ca6f4f9f153e7b1beafed1d"
+           "23304b7a39f9f3ff067d8d8f9e24ecc7"),
+         H("f58c4c04d6e5f1ba779eabfb5f7bfbd69cfc4e967edb808d679f777bc6702c7d39f23369a9d9bacfa530e26304231461"
+           "b2eb05e2c39be9fcda6c19078c6a9d1b"),
+         H("8ea2b7ca516745bfeafc49904b496089")),
+}
+
+
+# ----------------------------------------------------------------------------- Coq literals
+def cb(b):
+    return coq_bytes(bytes(b))
+
+
+def copt(x):
+    return "None" if x is None else f"(Some {cb(x)})"
+
+
+def clb(l):
+    return "[" + "; ".join(cb(x) for x in l) + "]"
+
+
+def cbool(b):
+    return "true" if b else "false"
+
+
+class Run:
+    def __init__(self, ctx, m):
+        self.ctx, self.m = ctx, m
+        self.cases, self.info = [], []
+        self.ref = Ref()
+
+    def call(self, what, f, *a):
+        """Run the implementation; ValueError -> None; any other exception is a finding (not a case)."""
+        try:
+            return True, f(*a)
+        except ValueError:
+            return True, None
+        except Exception as e:  # noqa
+            self.ctx.finding(f"unexpected-exception:{what}:{type(e).__name__}",
+                             f"{what} raised {type(e).__name__}: {e} (only ValueError is specified)",
+                             {"call": what, "args": [x if not isinstance(x, list) else list(x) for x in a]})
+            return False, None
+
+    def add(self, term, info, nontrivial=True, kind=None):
+        self.cases.append(term)
+        self.info.append(info)
+        self.ctx.case(info, nontrivial, kind or info[0])
+
+    def set_history(self, hist):
+        self.m._ROUND_KEY_CACHE.clear()
+        for k in hist:
+            try:
+                self.m._get_round_keys(k)
+            except ValueError:
+                pass
+
+
+def rkey(rng, n):
+    return bytes(rng.randrange(256) for _ in range(n))
+
+
+def run(ctx):
+    import logging
+    logging.disable(logging.CRITICAL)
+    ctx.rule = ("exhaustive: _xtime on 0..255(+masking cases), _gf_mul on all byte pairs (quick: all pairs in Python, "
+                "9x256+random pairs in Coq; thorough: all 65 536 in Coq), round functions on index-identifying, "
+                "single-bit (basis) and random states; random (history, key, iv, message) with key sizes 16/24/32, "
+                "message lengths 0..64 (aligned and not), wrong key/IV lengths, histories of up to 7 earlier keys "
+                "(cache hits, evictions, bad keys); CryptAES wrapper for every message length 0..64 x key size; "
+                "non-trivial = the call reaches the cipher (not rejected up front)")
+    ctx.trusted += [
+        "G-dump: tools/props/c20.py prints _SBOX/_INV_SBOX/_MUL2.._MUL14/_RCON/_ROUND_KEY_CACHE_MAX of the imported module",
+        "spec C20/Spec.v written from FIPS-197 / SP 800-38A, validated by the published vectors (C20/Vectors.v, kernel)",
+        "hand-written model C20/Model.v of _pypdf_aes_fallback.py, tied by the differential run (vm_compute)",
+        "Python bytes / memoryview / bytearray slicing semantics as modelled by lists (firstn/skipn)",
+        "secrets.token_bytes is a parameter (the IV) of the model; the harness records the IV it returned",
+    ]
+    ctx.assumptions += ["list elements are bytes (< 256) — guaranteed by Python's bytes type",
+                        "single-threaded use of the module-level round-key cache (no interleaving modelled)"]
+    m = gen_tables(ctx)
+    rng = ctx.rng
+    R = Run(ctx, m)
+    ref = R.ref
+
+    # ---- proofs
+    ctx.prove("C20/Vectors.v", ["C20/Spec.vo"], expected=[
+        "fips197_B_cipher", "fips197_C_128_cipher", "fips197_C_192_cipher", "fips197_C_256_cipher",
+        "fips197_A_keyexp_128", "fips197_A_keyexp_192", "fips197_A_keyexp_256",
+        "sp800_38a_F1_ecb_128_encrypt", "sp800_38a_F2_cbc_256_decrypt"])
+    ctx.prove("C20/Props.v", ["C20/Top.vo"], expected=[
+        "C20_sbox_tables_ok", "C20_mul_tables_ok", "C20_rcon_ok", "C20_gf_mul_ok", "C20_built_tables",
+        "C20_expand_key_eq_spec", "C20_block_eq_fips", "C20_decrypt_encrypt", "C20_ecb_eq", "C20_cbc_eq",
+        "C20_ecb_roundtrip", "C20_cbc_roundtrip", "C20_unpad_pad", "C20_pad_len", "C20_stream_roundtrip",
+        "C20_rejects", "C20_round_key_cache_coherent"])
+    ok_inst, _ = ctx.prove("C20/Inst.v", ["Gen/C20Tables.vo", "C20/Corr.vo"], expected=["C20_tables_ok", "C20_cache_max"])
+    if not ok_inst:
+        okh, out = ctx.coq_eval("firstbad", "From S2T Require Import C20.Spec C20.Model C20.Tables Gen.C20Tables.\n"
+                                "Eval vm_compute in (first_bad T).\n")
+        ctx.extra["first_bad_tables(index into SBOX,INV_SBOX,MUL2,3,9,11,13,14,RCON)"] = out[-300:]
+
+    # ---- tables on the implementation, directly (property oracle for the G part: names the bad entry)
+    want = {"_SBOX": ref.sbox, "_INV_SBOX": ref.inv_sbox,
+            **{f"_MUL{k}": [ref.gmul(v, k) for v in range(256)] for k in (2, 3, 9, 11, 13, 14)}}
+    rc, rcon = 1, [0]
+    for _ in range(14):
+        rcon.append(rc)
+        rc = ref.gmul(rc, 2)
+    want["_RCON"] = rcon
+    for name, w in want.items():
+        got = list(getattr(m, name))
+        ctx.case(("table", name), True, "table")
+        if got != w:
+            bad = next((i for i in range(max(len(got), len(w))) if i >= len(got) or i >= len(w) or got[i] != w[i]), None)
+            ctx.finding(f"table:{name}[{bad}]", f"{name}[{bad}] = {got[bad] if bad is not None and bad < len(got) else None}, "
+                        f"FIPS-197 value is {w[bad] if bad is not None and bad < len(w) else None}",
+                        {"table": name, "index": bad, "got": got, "want": w})
+
+    # ---- byte-level functions
+    for a in list(range(256)) + [256, 257, 0x180, 0x1FF, 1023, 2 ** 40 + 5]:
+        ok, r = R.call("_xtime", m._xtime, a)
+        if ok:
+            R.add(f"CXtime {a} {r}", ("xtime", a, r))
+            if r != ref.gmul(a & 0xFF, 2):
+                ctx.finding(f"xtime:{a & 0xFF}", f"_xtime({a}) = {r}, field product is {ref.gmul(a & 0xFF, 2)}", {"a": a, "got": r})
+    mults = [0, 1, 2, 3, 9, 11, 13, 14, 255]
+    for a in range(256):
+        for b in range(256):
+            r = m._gf_mul(a, b)
+            exp = ref.gmul(a, b)
+            if r != exp:
+                ctx.finding(f"gf_mul:{a}*{b}", f"_gf_mul({a},{b}) = {r}, field product is {exp}", {"a": a, "b": b, "got": r})
+            if ctx.tier == "thorough" or b in mults:
+                R.add(f"CGfMul {a} {b} {r}", ("gf_mul", a, b, r), kind="gf_mul")
+            else:
+                ctx.case(("gf_mul", a, b, r), True, "gf_mul(py)")
+    for _ in range(ctx.n(1500, 0)):
+        a, b = rng.randrange(256), rng.randrange(256)
+        R.add(f"CGfMul {a} {b} {m._gf_mul(a, b)}", ("gf_mul", a, b), kind="gf_mul")
+    for a, b in [(256 + 3, 7), (5, 512 + 9), (2 ** 33 + 87, 2 ** 20 + 131)]:
+        R.add(f"CGfMul {a} {b} {m._gf_mul(a, b)}", ("gf_mul", a, b), kind="gf_mul")
+
+    # ---- round functions on states
+    states = [list(range(16)), list(range(16, 32)), list(range(240, 256)), [0] * 16, [255] * 16]
+    for i in range(16):
+        for bit in (0, 7) if ctx.tier == "quick" else range(8):
+            s = [0] * 16
+            s[i] = 1 << bit
+            states.append(s)
+    for col_bit in range(32):   # GF(2)-basis of the 32-bit column space, in a random column, other columns random
+        s = [rng.randrange(256) for _ in range(16)]
+        c = rng.randrange(4)
+        s[4 * c:4 * c + 4] = [(1 << (col_bit % 8)) if j == col_bit // 8 else 0 for j in range(4)]
+        states.append(s)
+    states += [[rng.randrange(256) for _ in range(16)] for _ in range(ctx.n(60, 600))]
+    fns = [m._sub_bytes, m._inv_sub_bytes, m._shift_rows, m._inv_shift_rows, m._mix_columns, m._inv_mix_columns]
+    for s in states:
+        for k, f in enumerate(fns):
+            st = list(s)
+            ok, _ = R.call(f.__name__, f, st)
+            if ok:
+                R.add(f"CState {k} {cb(s)} {cb(st)}", ("state", f.__name__, bytes(s), bytes(st)), kind=f.__name__)
+        rk = [rng.randrange(256) for _ in range(16)]
+        st = list(s)
+        m._add_round_key(st, bytes(rk))
+        R.add(f"CArk {cb(s)} {cb(rk)} {cb(st)}", ("ark", bytes(s), bytes(rk)), kind="_add_round_key")
+        # inverses on the implementation
+        for f, g in ((m._sub_bytes, m._inv_sub_bytes), (m._shift_rows, m._inv_shift_rows), (m._mix_columns, m._inv_mix_columns)):
+            st = list(s)
+            f(st)
+            g(st)
+            if st != s:
+                ctx.finding(f"not-inverse:{g.__name__}", f"{g.__name__}({f.__name__}(s)) != s for s={s}", {"state": s, "got": st})
+
+    # ---- key expansion, block functions
+    keys = []
+    for n in (16, 24, 32):
+        keys += [bytes(n), bytes([255]) * n, bytes(range(n)), KAT[n][0]] + [rkey(rng, n) for _ in range(ctx.n(8, 80))]
+    bad_keys = [rkey(rng, n) for n in (0, 1, 8, 15, 17, 20, 23, 25, 31, 33, 48, 64)]
+    for k in keys + bad_keys:
+        ok, r = R.call("_expand_key", m._expand_key, k)
+        if not ok:
+            continue
+        R.add(f"CExpand {cb(k)} " + ("None" if r is None else f"(Some {clb(r)})"), ("expand", k), len(k) in (16, 24, 32), "expand_key")
+        if len(k) in (16, 24, 32):
+            exp, _ = ref.expand(k)
+            if r is None or [bytes(x) for x in r] != [bytes(x) for x in exp]:
+                ctx.finding(f"expand_key:len={len(k)}", f"_expand_key differs from FIPS-197 KeyExpansion for key {k.hex()}",
+                            {"key": k, "got": r, "want": [bytes(x) for x in exp]})
+        elif r is not None:
+            ctx.finding(f"accepts-key-length:{len(k)}", f"_expand_key accepts a {len(k)}-byte key", {"key": k})
+    for k in keys:
+        rks = m._expand_key(k)
+        for blk in [bytes(16), rkey(rng, 16)]:
+            for dec, f, rf in ((False, m._aes_encrypt_block, ref.enc_block), (True, m._aes_decrypt_block, ref.dec_block)):
+                ok, r = R.call(f.__name__, f, blk, rks)
+                if not ok:
+                    continue
+                R.add(f"CBlock {cbool(dec)} {cb(k)} {cb(blk)} {copt(r)}", ("block", dec, k, blk), kind=f.__name__)
+                if r != rf(k, blk):
+                    ctx.finding(f"block-{'decrypt' if dec else 'encrypt'}:keylen={len(k)}",
+                                f"{f.__name__} differs from FIPS-197 for key {k.hex()} block {blk.hex()}",
+                                {"key": k, "block": blk, "got": r, "want": rf(k, blk)})
+        for blk in (rkey(rng, 15), rkey(rng, 17), b""):
+            ok, r = R.call("_aes_encrypt_block", m._aes_encrypt_block, blk, rks)
+            if ok:
+                R.add(f"CBlock false {cb(k)} {cb(blk)} {copt(r)}", ("block", False, k, blk), False, "block-badlen")
+                if r is not None:
+                    ctx.finding("block-accepts-bad-length", f"_aes_encrypt_block accepts a {len(blk)}-byte block", {"block": blk})
+
+    # ---- published vectors on the implementation
+    for n, (k, ecb, cbc, c1) in KAT.items():
+        R.set_history([])
+        checks = [("ecb-enc", m.aes_ecb_encrypt(k, KAT_PT), ecb), ("ecb-dec", m.aes_ecb_decrypt(k, ecb), KAT_PT),
+                  ("cbc-enc", m.aes_cbc_encrypt(k, KAT_IV, KAT_PT), cbc), ("cbc-dec", m.aes_cbc_decrypt(k, KAT_IV, cbc), KAT_PT),
+                  ("fips197-C", m.aes_ecb_encrypt(bytes(range(n)), H("00112233445566778899aabbccddeeff")), c1)]
+        for nm, got, wantv in checks:
+            ctx.case(("kat", n, nm), True, "known-answer")
+            if got != wantv:
+                ctx.finding(f"known-answer:{nm}:{n * 8}", f"published vector {nm} AES-{n * 8} not reproduced",
+                            {"key": k, "got": got, "want": wantv})
+
+    # ---- ECB / CBC through the public functions, with cache histories
+    def history():
+        pool = [rng.choice(keys) for _ in range(5)] + [rng.choice(bad_keys)]
+        return [rng.choice(pool) for _ in range(rng.randrange(0, 8))]
+    n_mode = ctx.n(220, 2500)
+    for t in range(n_mode):
+        k = rng.choice(keys) if rng.random() < 0.9 else rng.choice(bad_keys)
+        hist = history()
+        if rng.random() < 0.3:
+            hist.append(k)
+        ln = rng.choice([0, 16, 32, 48, 64]) if rng.random() < 0.85 else rng.randrange(1, 65)
+        data = rkey(rng, ln)
+        iv = rkey(rng, 16) if rng.random() < 0.9 else rkey(rng, rng.choice([0, 8, 15, 17, 32]))
+        good = len(k) in (16, 24, 32) and ln % 16 == 0
+        for dec in (False, True):
+            R.set_history(hist)
+            f = m.aes_ecb_decrypt if dec else m.aes_ecb_encrypt
+            ok, r = R.call(f.__name__, f, k, data)
+            if ok:
+                R.add(f"CEcb {cbool(dec)} {clb(hist)} {cb(k)} {cb(data)} {copt(r)}", ("ecb", dec, hist, k, data), good, f.__name__)
+                if good and r != ref.ecb(k, data, dec):
+                    ctx.finding(f"{f.__name__}:keylen={len(k)}", f"{f.__name__} differs from the FIPS-197 reference "
+                                f"(key {k.hex()}, {ln} bytes)", {"key": k, "data": data, "history": hist, "got": r})
+                if not good and r is not None:
+                    ctx.finding(f"{f.__name__}-accepts:key={len(k)},data%16={ln % 16}", f"{f.__name__} accepts key length "
+                                f"{len(k)} / data length {ln}", {"key": k, "data": data})
+            R.set_history(hist)
+            f = m.aes_cbc_decrypt if dec else m.aes_cbc_encrypt
+            ok, r = R.call(f.__name__, f, k, iv, data)
+            if ok:
+                g2 = good and len(iv) == 16
+                R.add(f"CCbc {cbool(dec)} {clb(hist)} {cb(k)} {cb(iv)} {cb(data)} {copt(r)}", ("cbc", dec, hist, k, iv, data), g2, f.__name__)
+                if g2 and r != (ref.cbc_dec if dec else ref.cbc_enc)(k, iv, data):
+                    ctx.finding(f"{f.__name__}:keylen={len(k)}", f"{f.__name__} differs from the SP 800-38A reference "
+                                f"(key {k.hex()}, iv {iv.hex()}, {ln} bytes)", {"key": k, "iv": iv, "data": data, "got": r})
+                if not g2 and r is not None:
+                    ctx.finding(f"{f.__name__}-accepts:key={len(k)},iv={len(iv)},data%16={ln % 16}",
+                                f"{f.__name__} accepts key/iv/data lengths {len(k)}/{len(iv)}/{ln}", {"key": k, "iv": iv, "data": data})
+        if good:
+            R.set_history(hist)
+            rt = m.aes_ecb_decrypt(k, m.aes_ecb_encrypt(k, data))
+            rt2 = m.aes_cbc_decrypt(k, iv, m.aes_cbc_encrypt(k, iv, data)) if len(iv) == 16 else data
+            if rt != data or rt2 != data:
+                ctx.finding(f"roundtrip:keylen={len(k)}", "decrypt(encrypt(m)) != m", {"key": k, "iv": iv, "data": data})
+
+    # ---- cache histories
+    for t in range(ctx.n(40, 400)):
+        hist = history() + history()
+        R.set_history(hist)
+        order = list(m._ROUND_KEY_CACHE.keys())
+        R.add(f"CCache {clb(hist)} {clb(order)}", ("cache", hist, order), len(order) > 0, "cache")
+        if len(order) > m._ROUND_KEY_CACHE_MAX or any(m._ROUND_KEY_CACHE[k] != m._expand_key(k) for k in order):
+            ctx.finding("cache-incoherent", f"round-key cache incoherent or larger than {m._ROUND_KEY_CACHE_MAX} after history",
+                        {"history": hist, "keys": order})
+        k = rng.choice(keys)
+        if m._get_round_keys(k) != m._expand_key(k):
+            ctx.finding("cache-returns-wrong-keys", "_get_round_keys(k) != _expand_key(k) after history", {"history": hist, "key": k})
+
+    # ---- PKCS#7
+    for ln in range(0, 65):
+        d = rkey(rng, ln)
+        for bs in (16,) if ctx.tier == "quick" and ln % 7 else (16, 1, 5, 8, 255):
+            p = m._pkcs7_pad(d, bs)
+            R.add(f"CPad {cb(d)} {bs} {cb(p)}", ("pad", d, bs), True, "pkcs7_pad")
+            ok, u = R.call("_pkcs7_unpad", m._pkcs7_unpad, p, bs)
+            if len(p) % bs or not (len(d) < len(p) <= len(d) + bs) or u != d:
+                ctx.finding(f"pkcs7:bs={bs}", f"unpad(pad(m)) != m or bad padded length for len(m)={ln}, block size {bs}",
+                            {"data": d, "block_size": bs, "padded": p, "unpadded": u})
+            R.add(f"CUnpad {cb(p)} {bs} {copt(u)}", ("unpad", p, bs), True, "pkcs7_unpad")
+    for _ in range(ctx.n(150, 1500)):
+        ln = rng.randrange(0, 40)
+        d = bytearray(rkey(rng, ln))
+        if ln and rng.random() < 0.7:
+            p = rng.randrange(0, 20)
+            tail = bytes([p]) * min(p, ln)
+            d[ln - len(tail):] = tail
+            if rng.random() < 0.3 and ln > 1:
+                d[rng.randrange(max(0, ln - p - 1), ln)] ^= rng.choice([1, 16, 255])
+        d = bytes(d)
+        ok, u = R.call("_pkcs7_unpad", m._pkcs7_unpad, d, 16)
+        if ok:
+            R.add(f"CUnpad {cb(d)} 16 {copt(u)}", ("unpad", d, 16), u is not None, "pkcs7_unpad(malformed)")
+
+    # ---- CryptAES wrapper as patched into pypdf
+    patched = False
+    try:
+        patched = m.patch_pypdf_fallback_aes()
+        import pypdf._crypt_providers._fallback as fb
+        CryptAES = fb.CryptAES
+    except Exception as e:  # noqa
+        ctx.extra["cryptaes_wrapper"] = f"not reachable: {e!r}"
+    ctx.extra["pypdf_patched"] = bool(patched)
+    if patched:
+        real_token = m.secrets.token_bytes
+        try:
+            for n in (16, 24, 32):
+                for ln in range(0, 65):
+                    k, iv, msg = rkey(rng, n), rkey(rng, 16), rkey(rng, ln)
+                    m.secrets.token_bytes = lambda c, _iv=iv: _iv if c == 16 else real_token(c)
+                    R.set_history([])
+                    ok, ct = R.call("CryptAES.encrypt", CryptAES(k).encrypt, msg)
+                    if not ok:
+                        continue
+                    R.add(f"CStreamEnc {cb(k)} {cb(iv)} {cb(msg)} {copt(ct)}", ("stream-enc", k, iv, msg), True, "CryptAES.encrypt")
+                    exp = iv + ref.cbc_enc(k, iv, msg + bytes([16 - ln % 16]) * (16 - ln % 16))
+                    R.set_history([])
+                    ok2, back = R.call("CryptAES.decrypt", CryptAES(k).decrypt, ct) if ct is not None else (True, None)
+                    if ct != exp or back != msg:
+                        ctx.finding(f"stream:keylen={n}", f"CryptAES wrapper: encrypt != IV||CBC(pad(m)) or decrypt(encrypt(m)) != m "
+                                    f"for len(m)={ln}", {"key": k, "iv": iv, "message": msg, "ciphertext": ct, "decrypted": back})
+                    if ct is not None and ok2:
+                        R.add(f"CStreamDec {cb(k)} {cb(ct)} {copt(back)}", ("stream-dec", k, ct), True, "CryptAES.decrypt")
+            m.secrets.token_bytes = real_token
+            # freshness is not modelled, but the wrapper must at least ask for a new IV each call
+            c1, c2 = CryptAES(keys[0]).encrypt(b"x"), CryptAES(keys[0]).encrypt(b"x")
+            ctx.case(("iv-fresh",), True, "iv-fresh")
+            if c1[:16] == c2[:16]:
+                ctx.finding("iv-reused", "CryptAES.encrypt used the same IV twice", {"c1": c1, "c2": c2})
+            for _ in range(ctx.n(120, 1200)):   # malformed / foreign ciphertexts
+                k = rng.choice(keys)
+                ln = rng.choice([0, 1, 15, 16, 17, 31, 32, 33, 48, 64]) if rng.random() < 0.7 else rng.randrange(0, 80)
+                d = rkey(rng, ln)
+                if ln >= 32 and ln % 16 == 0 and rng.random() < 0.6:   # a valid one with foreign padding amount
+                    msg = rkey(rng, ln - 16 - rng.randrange(1, 17))
+                    pad = ln - 16 - len(msg)
+                    d = d[:16] + ref.cbc_enc(k, d[:16], msg + bytes([pad]) * pad)
+                R.set_history([])
+                ok, back = R.call("CryptAES.decrypt", CryptAES(k).decrypt, d)
+                if ok:
+                    R.add(f"CStreamDec {cb(k)} {cb(d)} {copt(back)}", ("stream-dec", k, d), back is not None, "CryptAES.decrypt(foreign)")
+        finally:
+            m.secrets.token_bytes = real_token
+    ctx.obligation("cryptaes-wrapper-exercised(pypdf on the fallback provider, patch applied)", bool(patched),
+                   str(ctx.extra.get("cryptaes_wrapper", "patch_pypdf_fallback_aes() returned False")))
+    m._ROUND_KEY_CACHE.clear()
+
+    # ---- correspondence: the model on the same cases
+    pre = "From Coq Require Import NArith List.\nFrom S2T Require Import C20.Spec C20.Model C20.Corr Gen.C20Tables.\nImport ListNotations.\n"
+    okc, failing, log = coq_eval_shards(ctx, "corr", pre, "(corr_case T)", R.cases, shard=ctx.n(350, 500), ty="ccase", timeout=1200)
+    ctx.traces += len(R.cases)
+    ctx.disagreements += len(failing)
+    ctx.extra["corr_cases"] = len(R.cases)
+    ctx.obligation("correspondence:model==implementation (byte-level exhaustive + random histories/keys/ivs/messages)",
+                   okc and not failing, (f"{len(failing)} disagreements; first: {R.info[failing[0]] if failing else ''!r} " + log)[:1500])
+    for i in failing[:5]:
+        inf = R.info[i]
+        ctx.finding(f"model-disagrees:{inf[0]}", f"implementation output differs from the proved model on a {inf[0]} case "
+                    f"(so from FIPS-197, the model being proved equal to the spec)", {"case": list(inf), "coq_term": R.cases[i][:4000]})
+
+
+META = {
+    "technique": "Coq proof (model of the table-driven AES == independent FIPS-197 spec, for every key/IV/message/history) "
+                 "+ kernel-decided equality of the nine live tables with the spec functions + published vectors decided "
+                 "by the kernel + vm_compute differential correspondence",
+    "design_ref": "DESIGN.md §5 C20",
+    "level_text": "Kernel-checked: spec (GF(2^8) by polynomial reduction, S-box = affine(inverse), matrix MixColumns, "
+                  "KeyExpansion, Cipher/InvCipher, ECB/CBC) reproduces FIPS-197 App. A/B/C and SP 800-38A F.1/F.2; for every "
+                  "key of 16/24/32 bytes, IV, aligned message and call history the model's _expand_key, block functions, "
+                  "aes_ecb_*/aes_cbc_* equal the spec; InvCipher.Cipher = id (MixColumns inverse lifted to all columns by "
+                  "XOR-linearity); ECB/CBC and CryptAES round trips; unpad(pad m) = m; ValueError on wrong lengths; cache "
+                  "coherent and <= 4 entries. Tables re-decided on every run; model tied to the code by differential runs.",
+    "level_note": "Trusted: Coq kernel+VM; the table printer; the hand-written model (validated differentially, incl. the "
+                  "patched pypdf CryptAES with a recorded IV); IV freshness (secrets) and thread interleavings of the "
+                  "module-level cache are not modelled.",
+}
